@@ -30,15 +30,19 @@ U(tag, v) == [tag |-> tag, v |-> v]
 Ok(v) == [s |-> "ok", v |-> v]
 ERROR == [s |-> "err", v |-> V(<<>>)]
 ANY == [s |-> "any", v |-> V(<<>>)]
+\* "yardl defaults to the zero value ... / may emit a runtime error": either the zero value z or an error
+ZeroOrErr(z) == [s |-> "zeroerr", v |-> z]
 
 \* ---- type-level edits: old/new value samples and conversions of a single value
 TypeEdits == {"int_to_long", "int_to_float", "int_to_string", "float_to_double", "string_to_int", "make_optional", "optional_to_union",
-              "add_union_case", "remove_union_case"}
+              "add_union_case", "remove_union_case", "uint_to_int", "ulong_to_long"}
 Ls(S) == { L(t) : t \in S }
 
 OldVals(e) ==
   CASE e \in {"int_to_long", "int_to_float", "int_to_string", "make_optional"} -> Ls({"i:0", "i:7", "i:-3", "i:max"})
     [] e = "float_to_double" -> Ls({"f:0", "f:1.5", "f:-2"})
+    [] e = "uint_to_int" -> Ls({"i:0", "i:7", "u:3e9"})
+    [] e = "ulong_to_long" -> Ls({"i:0", "i:7", "u:2^63"})
     [] e = "string_to_int" -> Ls({"s:12", "s:-3", "s:x", "s:"})
     [] e = "optional_to_union" -> Ls({"null", "i:7"})
     [] e = "add_union_case" -> {U("int32", L("i:7")), U("string", L("s:x"))}
@@ -50,6 +54,7 @@ NewVals(e) ==
     [] e = "int_to_string" -> Ls({"s:12", "s:-3", "s:x", "s:"})
     [] e = "float_to_double" -> Ls({"f:0", "f:1.5", "f:-2"})
     [] e = "string_to_int" -> Ls({"i:0", "i:7", "i:-3"})
+    [] e \in {"uint_to_int", "ulong_to_long"} -> Ls({"i:0", "i:7", "i:-3"})
     [] e = "make_optional" -> Ls({"null", "i:7"})
     [] e = "optional_to_union" -> {NULL, U("int32", L("i:7")), U("string", L("s:x"))}
     [] e = "add_union_case" -> {U("int32", L("i:7")), U("string", L("s:x")), U("float32", L("f:1.5"))}
@@ -66,6 +71,7 @@ Up(e, v) ==
     [] e = "int_to_float" -> FloatOfInt(v)
     [] e = "int_to_string" -> StringOfInt(v)
     [] e = "float_to_double" -> Ok(v)
+    [] e \in {"uint_to_int", "ulong_to_long"} -> IF v \in Ls({"u:3e9", "u:2^63"}) THEN ZeroOrErr(L("i:0")) ELSE Ok(v)   \* above the signed maximum
     [] e = "string_to_int" -> IntOfString(v)
     [] e = "make_optional" -> Ok(v)
     [] e = "optional_to_union" -> IF v = NULL THEN Ok(v) ELSE Ok(U("int32", v))
@@ -73,20 +79,24 @@ Up(e, v) ==
     [] e = "remove_union_case" -> IF v.tag = "float32" THEN ERROR ELSE Ok(v)
 
 Down(e, v) ==
-  CASE e = "int_to_long" -> IF v = L("l:big") THEN ANY ELSE Ok(v)          \* overflow: "may emit a runtime error"
+  CASE e = "int_to_long" -> IF v = L("l:big") THEN ZeroOrErr(L("i:0")) ELSE Ok(v)   \* overflow: an error or the zero value, never a wrapped number
+    [] e \in {"uint_to_int", "ulong_to_long"} -> IF v = L("i:-3") THEN ZeroOrErr(L("i:0")) ELSE Ok(v)
     [] e = "int_to_float" -> IntOfFloat(v)
     [] e = "int_to_string" -> IntOfString(v)
     [] e = "float_to_double" -> Ok(v)
     [] e = "string_to_int" -> StringOfInt(v)
     [] e = "make_optional" -> IF v = NULL THEN Ok(L("i:0")) ELSE Ok(v)     \* the zero value is written for an absent one
-    [] e = "optional_to_union" -> IF v = NULL THEN Ok(v) ELSE IF v.tag = "int32" THEN Ok(v.v) ELSE ERROR
+    [] e = "optional_to_union" -> IF v = NULL THEN Ok(v) ELSE IF v.tag = "int32" THEN Ok(v.v) ELSE ZeroOrErr(NULL)
     [] e = "add_union_case" -> IF v.tag = "float32" THEN ERROR ELSE Ok(v)
     [] e = "remove_union_case" -> Ok(v)
 
 \* ---- positions: how a conversion of the probe type lifts to the value of the protocol step
 Positions == {"step", "stream_item", "field", "alias", "vector_item", "optional", "vector_of_optional", "stream_of_optional", "optional_vector",
-              "field_of_nested_record"}
-Applicable(e, p) == e \in {"make_optional", "optional_to_union"} => p \notin {"optional", "vector_of_optional", "stream_of_optional"}
+              "field_of_nested_record", "vector_of_vector"}
+\* an optional or union cannot sit directly under an optional ("unions may not immediately contain other unions")
+\* (yardl also refuses a union or optional as the item type of a vector that sits under an optional)
+Applicable(e, p) == e \in {"make_optional", "optional_to_union", "add_union_case", "remove_union_case"} =>
+                       p \notin {"optional", "vector_of_optional", "stream_of_optional", "optional_vector"}
 
 MapSeq(F(_), s) == [i \in 1..Len(s) |-> F(s[i])]
 Bad(r) == { i \in 1..Len(r) : r[i].s # "ok" }
@@ -94,11 +104,15 @@ FirstBad(r) == CHOOSE i \in Bad(r) : \A j \in Bad(r) : i <= j
 Vals(r) == [i \in 1..Len(r) |-> r[i].v]
 \* a vector: a failing element fails the whole step; a stream: the items before the failing one are still delivered
 VecLift(F(_), x) == LET r == MapSeq(F, x.vec) IN
-                    IF \E i \in 1..Len(r) : r[i].s = "err" THEN ERROR ELSE IF Bad(r) # {} THEN ANY ELSE Ok(V(Vals(r)))
+                    IF \E i \in 1..Len(r) : r[i].s = "err" THEN ERROR
+                    ELSE IF \E i \in 1..Len(r) : r[i].s = "any" THEN ANY
+                    ELSE IF Bad(r) # {} THEN ZeroOrErr(V(Vals(r))) ELSE Ok(V(Vals(r)))
 StreamLift(F(_), x) == LET r == MapSeq(F, x.vec) IN
-                       IF Bad(r) = {} THEN Ok(V(Vals(r))) ELSE [s |-> r[FirstBad(r)].s, v |-> V(SubSeq(Vals(r), 1, FirstBad(r) - 1))]
+                       IF Bad(r) = {} THEN Ok(V(Vals(r)))
+                       ELSE IF r[FirstBad(r)].s = "zeroerr" THEN ANY
+                       ELSE [s |-> r[FirstBad(r)].s, v |-> V(SubSeq(Vals(r), 1, FirstBad(r) - 1))]
 OptLift(F(_), v) == IF v = NULL THEN Ok(v) ELSE F(v)
-RecLift(F(_), r) == LET x == F(r.p) IN IF x.s # "ok" THEN [x EXCEPT !.v = V(<<>>)] ELSE Ok([r EXCEPT !.p = x.v])
+RecLift(F(_), r) == LET x == F(r.p) IN IF x.s \in {"ok", "zeroerr"} THEN [s |-> x.s, v |-> [r EXCEPT !.p = x.v]] ELSE [x EXCEPT !.v = V(<<>>)]
 
 Lift(p, F(_), v) ==
   CASE p \in {"step", "alias"} -> F(v)
@@ -109,7 +123,8 @@ Lift(p, F(_), v) ==
     [] p = "vector_of_optional" -> LET G(x) == OptLift(F, x) IN VecLift(G, v)
     [] p = "stream_of_optional" -> LET G(x) == OptLift(F, x) IN StreamLift(G, v)
     [] p = "optional_vector" -> LET G(x) == VecLift(F, x) IN OptLift(G, v)
-    [] p = "field_of_nested_record" -> LET y == RecLift(F, v.o) IN IF y.s # "ok" THEN y ELSE Ok([v EXCEPT !.o = y.v])
+    [] p = "vector_of_vector" -> LET G(x) == VecLift(F, x) IN VecLift(G, v)
+    [] p = "field_of_nested_record" -> LET y == RecLift(F, v.o) IN IF y.s \in {"ok", "zeroerr"} THEN [s |-> y.s, v |-> [v EXCEPT !.o = y.v]] ELSE y
 
 \* step values built around leaf samples (two samples a, b where the position holds several)
 Build(p, a, b) ==
@@ -120,6 +135,7 @@ Build(p, a, b) ==
     [] p = "vector_of_optional" -> V(<<a, NULL, b>>)
     [] p = "stream_of_optional" -> V(<<NULL, a, b>>)
     [] p = "optional_vector" -> V(<<a, b>>)
+    [] p = "vector_of_vector" -> V(<<V(<<a>>), V(<<>>), V(<<b, a, b>>)>>)
     [] p = "field_of_nested_record" -> [o |-> [k |-> L("i:1"), p |-> a], z |-> L("s:x")]
 Extra(p) == IF p \in {"optional", "optional_vector"} THEN {NULL} ELSE IF p \in {"stream_item", "vector_item", "stream_of_optional"} THEN {V(<<>>)} ELSE {}
 
@@ -157,10 +173,16 @@ Sample(fs) == [n \in Names(fs) |-> ByName(fs, n).sample]
 Zeroed(fs) == [n \in Names(fs) |-> ByName(fs, n).zero]
 ConvRec(from, to, v) == [n \in Names(to) |-> IF n \in Names(from) THEN v[n] ELSE ByName(to, n).zero]
 
-RecCases == { [edit |-> e, old |-> RecordEdits[e][1], new |-> RecordEdits[e][2],
-               up |-> { [in |-> v, out |-> Ok(ConvRec(RecordEdits[e][1], RecordEdits[e][2], v))] : v \in {Sample(RecordEdits[e][1]), Zeroed(RecordEdits[e][1])} },
-               down |-> { [in |-> v, out |-> Ok(ConvRec(RecordEdits[e][2], RecordEdits[e][1], v))] : v \in {Sample(RecordEdits[e][2]), Zeroed(RecordEdits[e][2])} }]
-              : e \in DOMAIN RecordEdits }
+\* the record is used as the step type, as a case of a union ([Data, string] / [string, Data]: the other cases are untouched, the
+\* change sits behind a name), as item of a vector / stream, or under an optional
+RecPositions == {"step", "union_first", "union_last", "vector_item", "stream_item", "optional"}
+RecPosBase(p) == IF p \in {"union_first", "union_last"} THEN "step" ELSE p
+RecCases == { [edit |-> x[1], pos |-> x[2], old |-> RecordEdits[x[1]][1], new |-> RecordEdits[x[1]][2],
+               up |-> { [in |-> v, out |-> LET F(y) == Ok(ConvRec(RecordEdits[x[1]][1], RecordEdits[x[1]][2], y)) IN Lift(RecPosBase(x[2]), F, v)]
+                        : v \in StepVals(RecPosBase(x[2]), {Sample(RecordEdits[x[1]][1]), Zeroed(RecordEdits[x[1]][1])}) },
+               down |-> { [in |-> v, out |-> LET F(y) == Ok(ConvRec(RecordEdits[x[1]][2], RecordEdits[x[1]][1], y)) IN Lift(RecPosBase(x[2]), F, v)]
+                          : v \in StepVals(RecPosBase(x[2]), {Sample(RecordEdits[x[1]][2]), Zeroed(RecordEdits[x[1]][2])}) }]
+              : x \in (DOMAIN RecordEdits) \X RecPositions }
 
 \* conversion is the identity where nothing changed, and dropping-then-defaulting loses exactly the dropped fields
 ASSUME \A e \in DOMAIN RecordEdits : LET o == RecordEdits[e][1] n == RecordEdits[e][2] IN
